@@ -677,7 +677,7 @@ theorem inverse_equatorial_plane (x y : ℝ) (hr : cE2 * cA < Real.sqrt (x * x +
     ecfToGeodeticLL ⟨x, y, 0⟩ = ⟨0, Complex.arg ⟨x, y⟩ * (180 / Real.pi), Real.sqrt (x * x + y * y) - cA⟩ := by
   rw [V3.eq_iff]
   generalize hrr : Real.sqrt (x * x + y * y) = r at hr
-  simp [ecfToGeodeticLL, rad2deg, hrr]
+  simp [ecfToGeodeticLL, heikR0, heikQ, heikP, heikS, heikC, heikG, heikF, rad2deg, hrr]
   have hA := cA_pos
   have hR0 : (Real.sqrt 2)⁻¹ * Real.sqrt |(cA2 : ℝ)| * Real.sqrt |(1:ℝ) + 1| = cA := by
     have h2 : |(1:ℝ) + 1| = 2 := by norm_num
